@@ -14,3 +14,4 @@ import MW.Props.C15
 #print axioms MW.Props.C15.resume_succeeds_without_oracle
 #print axioms MW.Props.C15.oracle_optional
 #print axioms MW.Props.C15.oracle_optional_posts_nothing
+#print axioms MW.Props.C15.messages_are_the_modelled_ones
